@@ -134,6 +134,20 @@ def getActive (cfg : Cfg) (f : Fib Int π) : Int × Int :=
       | some s => if s = 0 then estShape f else s
       | none => estShape f)
 
+/-- the ranges of the wrappers: `iterRangeShape(s, e, k)` itself, `iterShape` = `(0, getShape)`,
+    `iterActiveShape` = `getActive()`; the same for the `…Ref` and the `coiter…` forms (which read
+    shape / active range from the first fiber) -/
+inductive Wrap
+  | range (s e : Int) (k : Nat)
+  | shape
+  | active
+
+def wrapCoords (w : Wrap) (cfg : Cfg) (f : Fib Int π) : List Int :=
+  match w with
+  | .range s e k => pyRange s e k
+  | .shape => pyRange 0 (getShape cfg f) 1
+  | .active => pyRange (getActive cfg f).1 (getActive cfg f).2 1
+
 /-- `getPayload(c)` with the storage position of what is returned (`none`: a fresh default
     that is not part of the fiber) -/
 def getPos (mk : π) (f : Fib Int π) (c : Int) : Option Nat × π :=
